@@ -855,7 +855,7 @@ def gen_td_grid(rnd, tier, group):
     sampled = [(3, 3, 250), (4, 2, 250), (4, 3, 120), (5, 2, 120), (3, 4, 80)]
     if tier == "thorough":
         full += [(4, 2), (3, 3)]
-        sampled = [(4, 3, 4000), (5, 2, 4000), (5, 3, 2000), (3, 4, 2000), (6, 2, 1000)]
+        sampled = [(4, 3, 2000), (5, 2, 2000), (5, 3, 1000), (3, 4, 1000), (6, 2, 500)]
     shapes = [(n, m, None) for n, m in full] + sampled
     for n, m, ns in shapes:
         tot = 3 ** (n * m)
